@@ -4,7 +4,13 @@ OpTableC: the shunting-yard fragment over ABSTRACT operand / prefix / infix / po
 (precedence, associativity) tags - one run covers all tables.  Proved (unbounded): stack safety (no IndexError / ValueError from
 any pop, index or unpack), the position protocol (the expression ends right after the last operand or postfix operator that was
 parsed: a dangling operator is left unconsumed, a second non-associative operator ends the expression), status/flags, and that
-exactly one tree remains.  The shape of that tree (precedence / associativity / fringe) is a BOUNDED stand-in (optable_ref).
+exactly one tree remains - and the SHAPE of that tree: a ghost record per operand-stack slot (open-left / open-right operator
+precedence, first / one-past-last consumed occurrence) is maintained by the hooks on the real pops, appends and Infix / Prefix /
+Postfix constructions; every construction carries the local well-shapedness obligations of the statement (operands are the adjacent
+occurrences in input order; the left operand's open operator binds tighter, or equally in a left row; the right operand's binds
+tighter, or equally in a right row; prefix / postfix operands bind at least as tight) and the stack invariants W0-W4 / K1-K6 carry
+them through all loops.  The result spans exactly the committed occurrences.  What stays BOUNDED (optable_ref): maximality of the
+run ("longest run that fits"), and the comparison against an independently written brute-force reference.
 
 Stacks are held positionally (arrays + length); ghost PS[i] = number of infix entries among the first i operators (prefix sums:
 closed under push, pop and truncation), so that  len(operands) = PS[len(operators)] + phase."""
@@ -19,6 +25,10 @@ from .core import NAME2FLAGS
 
 comp = Function('comp', Val, I, Val)        # i-th component of a tuple value
 arity = Function('arity', Val, I)
+
+
+rowkind = Function('rowkind', I, I)      # associativity id of a row: a row has ONE kind (OperatorTable.create tags (row, kind(row), op): CreateC)
+GHOST_T = {'ws': B, 'oL': I, 'oR': I, 'lo': I, 'hi': I}
 
 
 def tag3(prec, assoc, op):
@@ -76,22 +86,33 @@ class OpTableC(FragContract):
                         *int_facts(pr[k](pos)), *int_facts(a), v != NONE]
             return ax
         cx.child_value_axioms = {
-            2: triple(2, lambda pos: IntVal(0)),                                     # prefix: (row, 0, operator)
-            3: lambda ex_, c, pos, rho: triple(3, asf)(ex_, c, pos, rho) + [asf(pos) >= 1, asf(pos) <= 3],   # infix: (row, 1|2|3, operator)
+            2: lambda ex_, c, pos, rho: triple(2, lambda pos_: IntVal(0))(ex_, c, pos, rho) + [rowkind(pr[2](pos)) == 0],    # prefix: (row, 0 = kind of the row, operator)
+            3: lambda ex_, c, pos, rho: triple(3, asf)(ex_, c, pos, rho) + [asf(pos) >= 1, asf(pos) <= 3, asf(pos) == rowkind(pr[3](pos))],   # infix: (row, 1|2|3 = kind of the row, operator)
             4: lambda ex_, c, pos, rho: [arity(c.val(pos, rho)) == 2, comp(c.val(pos, rho), 0) == int_v(pr[4](pos)), comp(c.val(pos, rho), 1) == opf[4](pos),
-                                         pr[4](pos) >= 0, *int_facts(pr[4](pos)), c.val(pos, rho) != NONE],    # postfix: (row, operator)
+                                         pr[4](pos) >= 0, *int_facts(pr[4](pos)), c.val(pos, rho) != NONE, rowkind(pr[4](pos)) == 4],    # postfix: (row, operator); a postfix row is no prefix / infix row
         }
         ex.axiom(kind(NONE) == K_NONE)
         g = st.ghost
         g['PS'] = Store(Array('PS0', I, I), 0, IntVal(0))
         g['nparsed'] = IntVal(0)
         g['last_end'] = cx.p0
+        # ghost for the shape clauses: occurrences (operands / operators successfully parsed) are numbered in input order
+        g['ntok'], g['ncommit'], g['cur_tok'], g['cur_k'], g['cur_val'], g['cur_ok'] = IntVal(0), IntVal(0), IntVal(-1), 0, None, None
+        g['T'] = {k: Array(f'T_{k}_0', I, srt) for k, srt in GHOST_T.items()}      # per operand-stack slot
+        g['Oidx'] = Array('Oidx_0', I, I)                                          # per operator-stack slot: its occurrence number
+        g['popped'], g['popped_op'] = [], None
 
         def after_child(ex_, st_, k, pos, rho, ok, np):
+            gg = st_.ghost
             if k == 1:
-                st_.ghost['nparsed'] = If(ok, st_.ghost['nparsed'] + 1, st_.ghost['nparsed'])
+                gg['nparsed'] = If(ok, gg['nparsed'] + 1, gg['nparsed'])
             if k in (1, 4):
-                st_.ghost['last_end'] = If(ok, np, st_.ghost['last_end'])     # end of the last operand / postfix operator parsed
+                gg['last_end'] = If(ok, np, gg['last_end'])     # end of the last operand / postfix operator parsed
+            nt = gg['ntok']
+            gg['cur_tok'], gg['cur_k'], gg['cur_val'], gg['cur_ok'] = nt, k, cx.kids[k].val(pos, rho), ok
+            gg['ntok'] = If(ok, nt + 1, nt)
+            if k in (1, 4):
+                gg['ncommit'] = If(ok, nt + 1, gg['ncommit'])   # occurrences up to the last operand / postfix operator are committed
         cx.after_child = after_child
 
         # both stacks are held positionally
@@ -104,13 +125,107 @@ class OpTableC(FragContract):
         orig = ex.arrlist_method
         roles = self.roles(cx)
 
+        def find_popped(st_, v):
+            for rec in reversed(st_.ghost.get('popped', [])):
+                if isinstance(v, z3.ExprRef) and rec['val'].eq(v):
+                    return rec
+            raise OutOfSubset('an operand of a new tree node is not a value popped from the operand stack')
+
+        def node_record(e, arg, st_):
+            """-> (value appended, ghost record): the argument is evaluated ONCE (it may pop), the local shape obligations of the statement are emitted"""
+            gg = st_.ghost
+            if isinstance(arg, ast.Call) and isinstance(arg.func, ast.Name) and arg.func.id in cx.ctor_names:
+                if arg.keywords:
+                    raise OutOfSubset('tree node built with keywords')
+                vals = [ex.ev(a, st_) for a in arg.args]
+                # the node itself is built by the generic constructor hook, from the values just computed
+                tmp = [f'__node_arg{k}' for k in range(len(vals))]
+                for nm, v in zip(tmp, vals):
+                    st_.env[nm] = v
+                call = ast.Call(func=arg.func, args=[ast.Name(id=nm, ctx=ast.Load()) for nm in tmp], keywords=[])
+                ast.copy_location(call, arg); ast.fix_missing_locations(call)
+                value = ex.ev(call, st_)
+                for nm in tmp:
+                    del st_.env[nm]
+                kind_ = arg.func.id
+                if kind_ in ('Infix', 'Prefix'):
+                    op = gg.get('popped_op')
+                    if op is None:
+                        raise OutOfSubset('tree node built without a popped operator entry')
+                    if (kind_ == 'Infix' and len(vals) != 3) or (kind_ == 'Prefix' and len(vals) != 2):
+                        raise OutOfSubset('tree node arity')
+                if kind_ == 'Infix':
+                    ra, rb, o = find_popped(st_, vals[0]), find_popped(st_, vals[2]), vals[1]
+                    ex.safety(st_, 'shape: Infix is built for an infix entry', e, op['assoc'] != 0)
+                    ex.safety(st_, 'shape: the operator of the node is the operator of the popped entry', e, ex.box(o) == comp(op['entry'], 2))
+                    ex.safety(st_, 'shape: left operand, operator, right operand are adjacent occurrences in input order', e,
+                              And(ra['hi'] == op['idx'], op['idx'] + 1 == rb['lo']))
+                    ex.safety(st_, 'shape: both operands are well-shaped', e, And(ra['ws'], rb['ws']))
+                    ex.safety(st_, 'shape: the left operand binds tighter than the operator, or equally in a left-associative row', e,
+                              Or(ra['oR'] < op['prec'], And(ra['oR'] == op['prec'], op['assoc'] == 1)))
+                    ex.safety(st_, 'shape: the right operand binds tighter than the operator, or equally in a right-associative row', e,
+                              Or(rb['oL'] < op['prec'], And(rb['oL'] == op['prec'], op['assoc'] == 2)))
+                    gg['popped_op'] = None
+                    return value, {'ws': BoolVal(True), 'oL': op['prec'], 'oR': op['prec'], 'lo': ra['lo'], 'hi': rb['hi']}
+                if kind_ == 'Prefix':
+                    rb, o = find_popped(st_, vals[1]), vals[0]
+                    ex.safety(st_, 'shape: Prefix is built for a prefix entry', e, op['assoc'] == 0)
+                    ex.safety(st_, 'shape: the operator of the node is the operator of the popped entry', e, ex.box(o) == comp(op['entry'], 2))
+                    ex.safety(st_, 'shape: prefix operator and its operand are adjacent occurrences in input order', e, op['idx'] + 1 == rb['lo'])
+                    ex.safety(st_, 'shape: the operand is well-shaped', e, rb['ws'])
+                    ex.safety(st_, 'shape: the operand of a prefix operator binds at least as tight', e, rb['oL'] <= op['prec'])
+                    gg['popped_op'] = None
+                    return value, {'ws': BoolVal(True), 'oL': IntVal(-1), 'oR': op['prec'], 'lo': op['idx'], 'hi': rb['hi']}
+                # Postfix(operand, operator): the operator is the postfix operator just parsed
+                if len(vals) != 2:
+                    raise OutOfSubset('tree node arity')
+                if gg['cur_k'] != 4:
+                    ex.safety(st_, 'shape: Postfix is built right after a postfix operator was parsed', e, BoolVal(False))
+                    return value, {'ws': BoolVal(True), 'oL': IntVal(-1), 'oR': IntVal(-1), 'lo': gg['cur_tok'], 'hi': gg['cur_tok'] + 1}
+                ra, o, v4 = find_popped(st_, vals[0]), vals[1], gg['cur_val']
+                q = un_int(comp(v4, 0))
+                ex.safety(st_, 'shape: the operator of the node is the postfix operator just parsed', e, And(gg['cur_ok'], ex.box(o) == comp(v4, 1)))
+                ex.safety(st_, 'shape: operand and postfix operator are adjacent occurrences in input order', e, ra['hi'] == gg['cur_tok'])
+                ex.safety(st_, 'shape: the operand is well-shaped', e, ra['ws'])
+                ex.safety(st_, 'shape: the operand of a postfix operator binds at least as tight', e, ra['oR'] <= q)
+                return value, {'ws': BoolVal(True), 'oL': q, 'oR': IntVal(-1), 'lo': ra['lo'], 'hi': gg['cur_tok'] + 1}
+            # a leaf: the operand just parsed
+            v = ex.ev(arg, st_)
+            ok_leaf = And(gg['cur_ok'], ex.box(v) == gg['cur_val']) if gg['cur_k'] == 1 else BoolVal(False)
+            ex.safety(st_, 'shape: a leaf pushed on the operand stack is the operand just parsed', e, ok_leaf)
+            return v, {'ws': BoolVal(True), 'oL': IntVal(-1), 'oR': IntVal(-1), 'lo': gg['cur_tok'], 'hi': gg['cur_tok'] + 1}
+
         def arrlist_method(e, name, meth, st_):
+            gg = st_.ghost
+            if name == roles['opd'] and meth == 'append':
+                if len(e.args) != 1 or name in st_.frozen:
+                    raise OutOfSubset('append arity / aliased stack')
+                value, rec = node_record(e, e.args[0], st_)
+                L = st_.env[name]                       # read AFTER the argument was evaluated: it may have popped
+                st_.env[name] = ArrList([Store(L.arrs[0], L.n, ex.box(value))], L.n + 1)
+                gg['T'] = {k: Store(a_, L.n, rec[k]) for k, a_ in gg['T'].items()}
+                return NONE
+            L = st_.env[name]
             if name == roles['ops'] and meth == 'append':
-                L = st_.env[name]
                 r = orig(e, name, meth, st_)
+                L = ArrList(st_.env[name].arrs, st_.env[name].n - 1)
                 t = Select(st_.env[name].arrs[0], L.n)
-                ps = st_.ghost['PS']
-                st_.ghost['PS'] = Store(ps, L.n + 1, Select(ps, L.n) + If(un_int(comp(t, 1)) != 0, 1, 0))
+                ps = gg['PS']
+                gg['PS'] = Store(ps, L.n + 1, Select(ps, L.n) + If(un_int(comp(t, 1)) != 0, 1, 0))
+                ok_op = And(gg['cur_ok'], t == gg['cur_val']) if gg['cur_k'] in (2, 3) else BoolVal(False)
+                ex.safety(st_, 'shape: an entry pushed on the operator stack is the prefix / infix operator just parsed', e, ok_op)
+                gg['Oidx'] = Store(gg['Oidx'], L.n, gg['cur_tok'])
+                return r
+            if name == roles['ops'] and meth == 'pop':
+                r = orig(e, name, meth, st_)
+                entry = Select(L.arrs[0], L.n - 1)
+                gg['popped_op'] = {'entry': entry, 'prec': un_int(comp(entry, 0)), 'assoc': un_int(comp(entry, 1)), 'idx': Select(gg['Oidx'], L.n - 1)}
+                return r
+            if name == roles['opd'] and meth == 'pop':
+                r = orig(e, name, meth, st_)
+                rec = {k: Select(a_, L.n - 1) for k, a_ in gg['T'].items()}
+                rec['val'] = r
+                gg['popped'] = list(gg.get('popped', [])) + [rec]
                 return r
             return orig(e, name, meth, st_)
         ex.arrlist_method = arrlist_method
@@ -197,16 +312,33 @@ class OpTableC(FragContract):
 
     def loops(self, cx):
         R = self.roles(cx)
-        i = Const('i', I)
+        i, j = Const('i', I), Const('j', I)
+
+        def tags(st):
+            a = st.env[R['ops']].arrs[0]
+            P = lambda k: un_int(comp(Select(a, k), 0))
+            A = lambda k: un_int(comp(Select(a, k), 1))
+            return P, A
+
+        def ok_right_of(st, n, k):
+            """a tree whose open-left operator has precedence n (-1: none) may be the right operand of operator entry k"""
+            P, A = tags(st)
+            return If(A(k) == 0, n <= P(k), Or(n < P(k), And(n == P(k), A(k) == 2)))
+
+        def ok_left_of(n, prec, assoc):
+            return Or(n < prec, And(n == prec, assoc == 1))
 
         def common(ex, st, phase):
             ops, opd = st.env[R['ops']], st.env[R['opd']]
             PS = st.ghost['PS']
             sn, on = ops.n, opd.n
             a = ops.arrs[0]
+            T, Oidx = st.ghost['T'], st.ghost['Oidx']
+            P, A = tags(st)
             yield 'S1 lengths', And(sn >= 0, on >= 0, st.ghost['nparsed'] >= 0)
             yield 'S2 PS are the prefix sums of "is an infix entry"', And(Select(PS, 0) == 0, ForAll([i], Implies(And(0 <= i, i < sn), And(
                 Select(PS, i + 1) == Select(PS, i) + If(un_int(comp(Select(a, i), 1)) != 0, 1, 0), Select(PS, i) >= 0))), Select(PS, sn) >= 0)
+            yield 'S2m PS is monotone', ForAll([i, j], Implies(And(0 <= i, i <= j, j <= sn), Select(PS, i) <= Select(PS, j)))
             yield 'S3 every operator entry is a (precedence, associativity, operator) triple of ints', ForAll([i], Implies(And(0 <= i, i < sn), And(
                 arity(Select(a, i)) == 3, kind(comp(Select(a, i), 0)) == K_INT, kind(comp(Select(a, i), 1)) == K_INT, Select(a, i) != NONE,
                 truthy(comp(Select(a, i), 1)) == (un_int(comp(Select(a, i), 1)) != 0))))
@@ -214,6 +346,28 @@ class OpTableC(FragContract):
             pos = st.env['_pos']
             yield 'S6 position in range', And(0 <= pos, pos <= cx.N, reach(pos))
             yield 'S8 an operand is on the stack iff one was parsed', (on >= 1) == (st.ghost['nparsed'] >= 1) if phase == 0 else And(on >= 1, st.ghost['nparsed'] >= 1)
+            # ---- shape
+            yield 'W0 tags: precedence >= 0, kind in 0..3, an entry carries the kind of its row', ForAll([i], Implies(And(0 <= i, i < sn), And(
+                P(i) >= 0, 0 <= A(i), A(i) <= 3, A(i) == rowkind(P(i)),
+                comp(Select(a, i), 0) == int_v(P(i)), comp(Select(a, i), 1) == int_v(A(i)))))
+            yield 'W1 every tree on the operand stack is well-shaped', ForAll([j], Implies(And(0 <= j, j < on), Select(T['ws'], j)))
+            yield 'W2 an infix entry lies above an entry only if it may end up in that entry\'s right operand', ForAll([i], Implies(
+                And(0 <= i, i + 1 < sn, A(i + 1) != 0), ok_right_of(st, P(i + 1), i)))
+            yield 'W3 the left operand of a pending infix entry may stay its left operand', ForAll([i], Implies(
+                And(0 <= i, i < sn, A(i) != 0), ok_left_of(Select(T['oR'], Select(PS, i)), P(i), A(i))))
+            yield 'K1 the left operand of a pending infix entry ends right before it', ForAll([i], Implies(
+                And(0 <= i, i < sn, A(i) != 0), Select(T['hi'], Select(PS, i)) == Select(Oidx, i)))
+            yield 'K2 what follows a pending entry starts right after it', ForAll([i], Implies(And(0 <= i, i + 1 < sn), If(
+                A(i + 1) != 0, Select(T['lo'], Select(PS, i + 1)) == Select(Oidx, i) + 1, Select(Oidx, i + 1) == Select(Oidx, i) + 1)))
+            yield 'K4 the pending sequence starts with occurrence 0', And(
+                Implies(sn >= 1, If(A(0) != 0, Select(T['lo'], 0) == 0, Select(Oidx, 0) == 0)), Implies(And(sn == 0, on >= 1), Select(T['lo'], 0) == 0))
+
+        def top_pair(ex, st):
+            """phase 1: the top tree may be the right operand of the top entry and starts right after it"""
+            ops, opd = st.env[R['ops']], st.env[R['opd']]
+            T, Oidx = st.ghost['T'], st.ghost['Oidx']
+            yield 'W4 the top tree may be the right operand of the top entry', Implies(ops.n >= 1, ok_right_of(st, Select(T['oL'], opd.n - 1), ops.n - 1))
+            yield 'K5 the top tree starts right after the top entry', Implies(ops.n >= 1, Select(T['lo'], opd.n - 1) == Select(Oidx, ops.n - 1) + 1)
 
         def outer_inv(ex, st, at_head=True):
             yield from common(ex, st, 0)
@@ -221,13 +375,18 @@ class OpTableC(FragContract):
                 yield 'S12 nothing is consumed before the first prefix / operand attempt', Implies(st.env[R['opd']].n == 0, st.env['_pos'] == cx.p0)
             ops, opd = st.env[R['ops']], st.env[R['opd']]
             PS = st.ghost['PS']
+            T, Oidx, g = st.ghost['T'], st.ghost['Oidx'], st.ghost
             mk, cp = st.env[R['marker']], st.env[R['outer_cp']]
             yield 'S7 the operators above the marker are one pending infix operator and prefix operators', Implies(opd.n >= 1, And(
-                0 <= mk, mk < ops.n, opd.n == Select(PS, mk) + 1))
+                0 <= mk, mk < ops.n, opd.n == Select(PS, mk) + 1, tags(st)[1](mk) != 0))
             yield 'S9 outer checkpoint = end of the last operand / postfix parsed', And(cp == st.ghost['last_end'], 0 <= cp, cp <= cx.N, reach(cp),
                                                                                            Implies(opd.n == 0, cp == cx.p0))
             if at_head:
                 yield 'S13 no operator is pending before the first operand', Implies(opd.n == 0, ops.n == 0)
+            yield 'K5p every occurrence parsed so far is pending', And(Implies(ops.n >= 1, Select(Oidx, ops.n - 1) + 1 == g['ntok']), Implies(ops.n == 0, g['ntok'] == 0))
+            yield 'W4m the top tree may be the right operand of the entry below the marker', Implies(And(opd.n >= 1, mk >= 1), ok_right_of(st, Select(T['oL'], opd.n - 1), mk - 1))
+            yield 'K5m the top tree starts right after the entry below the marker', Implies(And(opd.n >= 1, mk >= 1), Select(T['lo'], opd.n - 1) == Select(Oidx, mk - 1) + 1)
+            yield 'K6 the top tree ends with the last committed occurrence', Implies(opd.n >= 1, Select(T['hi'], opd.n - 1) == g['ncommit'])
 
         def prefix_inv(ex, st):
             yield from outer_inv(ex, st, at_head=False)
@@ -235,6 +394,20 @@ class OpTableC(FragContract):
         def after_operand_inv(ex, st):
             yield from common(ex, st, 1)
             yield 'S14 position = end of the last operand / postfix parsed', st.env['_pos'] == st.ghost['last_end']
+            yield from top_pair(ex, st)
+            T, g, on = st.ghost['T'], st.ghost, st.env[R['opd']].n
+            yield 'W5 the top tree has no open right side', Select(T['oR'], on - 1) == -1
+            yield 'K7 the top tree ends with the last occurrence parsed, which is committed', And(Select(T['hi'], on - 1) == g['ntok'], g['ncommit'] == g['ntok'])
+
+        def reduce_postfix_inv(ex, st):
+            yield from common(ex, st, 1)
+            yield 'S14 position = end of the last operand / postfix parsed', st.env['_pos'] == st.ghost['last_end']
+            yield from top_pair(ex, st)
+            T, g, on = st.ghost['T'], st.ghost, st.env[R['opd']].n
+            q = un_int(comp(ex.box(st.env['_result']), 0))
+            yield 'W5q the open right operator of the top tree binds tighter than the postfix operator', Select(T['oR'], on - 1) < q
+            yield 'K7q the top tree ends right before the postfix operator, the last occurrence parsed', And(
+                Select(T['hi'], on - 1) == g['cur_tok'], g['cur_tok'] + 1 == g['ntok'], g['ncommit'] == g['ntok'])
 
         def reduce_infix_inv(ex, st):
             yield from common(ex, st, 1)
@@ -243,28 +416,50 @@ class OpTableC(FragContract):
             yield 'S10 reductions only shrink the operator stack below the marker', And(ops.n <= mk)
             yield 'S15 the incoming operator\'s precedence is kept', And(st.env['_prec'] == st.ghost['prec_in'], st.ghost['prec_in'] != NONE)
             yield 'S9 outer checkpoint = end of the last operand / postfix parsed', And(cp == st.ghost['last_end'], 0 <= cp, cp <= cx.N, reach(cp))
+            yield from top_pair(ex, st)
+            T, g, on = st.ghost['T'], st.ghost, st.env[R['opd']].n
+            res = ex.box(st.env['_result'])
+            yield 'W5i the top tree may be the left operand of the incoming operator', ok_left_of(Select(T['oR'], on - 1), un_int(comp(res, 0)), un_int(comp(res, 1)))
+            yield 'K7i the top tree ends right before the incoming operator, the last occurrence parsed; it is not committed', And(
+                Select(T['hi'], on - 1) == g['cur_tok'], g['cur_tok'] + 1 == g['ntok'], g['ncommit'] == g['cur_tok'])
 
         def final_inv(ex, st):
             yield from common(ex, st, 1)
             yield 'S11 final position = end of the last operand / postfix parsed', st.env['_pos'] == st.ghost['last_end']
+            yield from top_pair(ex, st)
+            T, g, on = st.ghost['T'], st.ghost, st.env[R['opd']].n
+            yield 'K8 the top tree ends with the last committed occurrence', Select(T['hi'], on - 1) == g['ncommit']
 
-        def havoc(ex, st):
-            st.ghost['PS'] = ex.fv('PS', z3.ArraySort(I, I))
-            st.ghost['nparsed'] = ex.fv('nparsed', I)
-            st.ghost['last_end'] = ex.fv('last_end', I)
-            # ground instance of S2/S3 at the top of the operator stack (what a pop / top-of-stack read needs)
-            ops = st.env[R['ops']]
-            PS, a, sn = st.ghost['PS'], ops.arrs[0], ops.n
-            top = Select(a, sn - 1)
+        def havoc_for(role):
+            def havoc(ex, st):
+                g = st.ghost
+                g['T'] = {k: ex.fv(f'T_{k}', z3.ArraySort(I, srt)) for k, srt in GHOST_T.items()}
+                g['popped'], g['popped_op'] = [], None
+                if role in ('outer', 'prefix', 'postfix'):
+                    # loops that parse children and push operators
+                    g['PS'] = ex.fv('PS', z3.ArraySort(I, I))
+                    g['Oidx'] = ex.fv('Oidx', z3.ArraySort(I, I))
+                    g['nparsed'], g['last_end'] = ex.fv('nparsed', I), ex.fv('last_end', I)
+                    g['ntok'], g['ncommit'], g['cur_tok'] = ex.fv('ntok', I), ex.fv('ncommit', I), ex.fv('cur_tok', I)
+                    g['cur_k'], g['cur_val'], g['cur_ok'] = 0, None, None
+            return havoc
 
         def enter_reduce_infix(ex, st):
             st.ghost['prec_in'] = ex.box(st.env['_prec'])
 
+        def leave_reduce_infix(ex, st):
+            # the state in which the reductions for the incoming infix operator stopped: would pushing it chain a non-associative row?
+            ops = st.env[R['ops']]
+            P, A = tags(st)
+            res = ex.box(st.env['_result'])
+            st.ghost['chain_at_stop'] = And(ops.n >= 1, P(ops.n - 1) == un_int(comp(res, 0)), A(ops.n - 1) == 3)
+
         specs = {}
         for ordn, role in self.loop_roles(cx).items():
-            inv = {'outer': outer_inv, 'prefix': prefix_inv, 'postfix': after_operand_inv, 'reduce': after_operand_inv,
+            inv = {'outer': outer_inv, 'prefix': prefix_inv, 'postfix': after_operand_inv, 'reduce': reduce_postfix_inv,
                    'reduce-infix': reduce_infix_inv, 'reduce-final': final_inv}[role]
-            specs[ordn] = LoopSpec(inv, havoc=havoc, enter=enter_reduce_infix if role == 'reduce-infix' else None)
+            specs[ordn] = LoopSpec(inv, havoc=havoc_for(role), enter=enter_reduce_infix if role == 'reduce-infix' else None,
+                                   leave=leave_reduce_infix if role == 'reduce-infix' else None)
         return specs
 
     # ------------------------------------------------------------------ postcondition
@@ -277,8 +472,30 @@ class OpTableC(FragContract):
             ('P-one-tree: exactly one tree remains on the operand stack', Implies(ok, opd.n == 1)),
             ('P-fail: without any operand the table fails', Implies(Not(ok), opd.n == 0)),
         ]
+        T = g['T']
+        extra += [
+            ('P-shape: the resulting tree is well-shaped (every node built satisfied the precedence / associativity / attachment clauses)', Implies(ok, Select(T['ws'], 0))),
+            ('P-fringe: the tree spans exactly the committed occurrences, in input order', Implies(ok, And(Select(T['lo'], 0) == 0, Select(T['hi'], 0) == g['ncommit']))),
+        ]
+        # where the expression ends: only where the statement says (maximality of the run, as far as one activation can tell)
+        k, cok = g['cur_k'], g['cur_ok']
+        cfg = cx.cfg
+        if k == 1:
+            stop = Or(Not(cok), BoolVal(not cfg['infix'] and not cfg['postfix']))      # no operand follows | nothing can follow an operand
+        elif k == 4:
+            stop = And(Not(cok), BoolVal(not cfg['infix']))                             # no further postfix operator, and no infix rows
+        elif k == 3:
+            chain = g.get('chain_at_stop')
+            stop = Or(Not(cok), chain if chain is not None else BoolVal(False))         # no infix operator follows | it would chain a non-associative row
+        else:
+            stop = BoolVal(False)
+        extra.append(('P-stop: the expression ends only because no operand / no infix operator follows or a non-associative operator would be chained', stop))
         res = st.env['_result']
         return Outcome(ok, res, g['last_end'], extra)
+
+    def mustfail(self, cx, ex, st, oc):
+        g = st.ghost
+        yield 'P-fringe-off-by-one', Implies(g['nparsed'] >= 1, Select(g['T']['hi'], 0) == g['ncommit'] + 1)
 
 
 class CreateC:
